@@ -374,7 +374,7 @@ impl Property for C02 {
     }
     fn required_labels(&self) -> Vec<String> {
         let mut v: Vec<String> = table().iter().map(|r| format!("row={}", r.name)).collect();
-        v.extend(["mode=iterator", "mode=sum-function", "mode=sum-linear", "mode=product", "collision", "cancellation", "regime=general", "regime=dyadic", "dv-with-recorded-value", "tiny-scalar-times-huge-coefficients"].iter().map(|s| s.to_string()));
+        v.extend(["mode=iterator", "mode=sum-function", "mode=sum-linear", "mode=product", "collision", "cancellation", "regime=general", "regime=dyadic", "dv-with-recorded-value", "tiny-scalar-times-huge-coefficients", "same-operand-twice"].iter().map(|s| s.to_string()));
         v
     }
     fn cases(&self, tier: Tier) -> usize {
@@ -402,9 +402,15 @@ impl Property for C02 {
                 let row = &tab[t.choice(tab.len())];
                 ctx.label(format!("row={}", row.name));
                 let scaled = t.p(40);
+                let same = t.p(36);
                 let mut a = gen_operand(t, row.lk, &ids, regime, ctx);
                 let unary = matches!(row.op, Op::Neg | Op::NegRef);
                 let mut b = if unary { Opd::F(0.0) } else { gen_operand(t, row.rk, &ids, regime, ctx) };
+                // f + f, f - f, f * f: the same value on both sides (implementations may special-case equal operands)
+                if same && !unary && row.lk == row.rk && row.lk != K::F {
+                    b = a.clone();
+                    ctx.label("same-operand-twice");
+                }
                 // scalar multiples with a tiny scalar and huge coefficients (2^-60 * 2^70 k/16): every result
                 // coefficient is an ordinary dyadic number, so nothing may be dropped and the result is exact
                 let poly_kind = |k: K| matches!(k, K::L | K::Q | K::P | K::FN);
